@@ -1,0 +1,38 @@
+//! Verification hooks (compiled only with `--cfg yata_verif`): a bounds monitor in front of every
+//! unchecked access of the `unsafe_performance` code paths. It counts the accesses it has seen and
+//! panics with a distinctive message *before* an out-of-bounds access would happen.
+#![allow(missing_docs)]
+
+use std::sync::atomic::{AtomicU64, Ordering};
+
+pub static ACCESSES: AtomicU64 = AtomicU64::new(0);
+pub static COPIES: AtomicU64 = AtomicU64::new(0);
+
+#[inline]
+pub fn count_access() {
+	ACCESSES.fetch_add(1, Ordering::Relaxed);
+}
+
+#[inline]
+pub fn bounds(site: &'static str, idx: usize, len: usize) {
+	ACCESSES.fetch_add(1, Ordering::Relaxed);
+	assert!(idx < len, "YATA_VERIF_OOB site={site} idx={idx} len={len}");
+}
+
+#[inline]
+pub fn copy_bounds(site: &'static str, start: usize, dest: usize, count: usize, len: usize) {
+	COPIES.fetch_add(1, Ordering::Relaxed);
+	assert!(
+		start.checked_add(count).map_or(false, |e| e <= len)
+			&& dest.checked_add(count).map_or(false, |e| e <= len),
+		"YATA_VERIF_OOB site={site} start={start} dest={dest} count={count} len={len}"
+	);
+}
+
+#[must_use]
+pub fn counters() -> (u64, u64) {
+	(
+		ACCESSES.load(Ordering::Relaxed),
+		COPIES.load(Ordering::Relaxed),
+	)
+}
